@@ -1366,7 +1366,7 @@ def m_rev(c):
     return None
 
 
-@model(r"^std::iter::Iterator::(skip|take|step_by|zip|map|filter|chain|peekable|flatten|flat_map|copied|cloned|take_while|skip_while|filter_map|inspect|fuse|cycle|scan|map_while)$")
+@model(r"^std::iter::Iterator::(skip|step_by|zip|map|filter|chain|peekable|flatten|flat_map|copied|cloned|take_while|skip_while|filter_map|inspect|fuse|cycle|scan|map_while)$")
 def m_adaptor(c):
     if c.path.endswith("step_by"):
         n = c.num(1)
@@ -1379,7 +1379,9 @@ def m_adaptor(c):
     return ("iter", "other")
 
 
-def _range_next(c, fwd, incl):
+def _range_next(c, fwd, incl, counter=False):
+    """counter=True: the iterator is not a range but something that counts its own steps in ghost fields `start` (steps taken) and
+    `end` (the most it may take) - std::iter::Take: the yielded item is unknown, exhaustion of the inner iterator may end it early"""
     st = c.st
     pl = c.place_of(0)
     d = c.dest_place()
@@ -1392,16 +1394,19 @@ def _range_next(c, fwd, incl):
     # element type range
     etix = None
     pt = c.pointee_tix(0)
-    if pt is not None:
-        ty = c.an.T[pt]
-        if ty["k"] == "adt" and ty["args"]:
-            etix = ty["args"][0]
-            if not fwd:
-                inner = c.an.T[etix]
-                etix = inner["args"][0] if inner["k"] == "adt" and inner["args"] else None
-    if etix is None or not c.an.is_num(etix):
-        return None
-    r = c.an.ty_range(etix)
+    if counter:
+        r = (0, LEN_MAX)
+    else:
+        if pt is not None:
+            ty = c.an.T[pt]
+            if ty["k"] == "adt" and ty["args"]:
+                etix = ty["args"][0]
+                if not fwd:
+                    inner = c.an.T[etix]
+                    etix = inner["args"][0] if inner["k"] == "adt" and inner["args"] else None
+        if etix is None or not c.an.is_num(etix):
+            return None
+        r = c.an.ty_range(etix)
     for t in (S, E):
         st.set_iv(t, r[0], r[1])
     sv = st.sym.get((pl[0], pl[1] + ("start",)))
@@ -1410,7 +1415,7 @@ def _range_next(c, fwd, incl):
     e_val = ev if ev is not None and ev[0] == "n" else ("n", E, 0)
     si, ei = st.val_iv(s_val), st.val_iv(e_val)
     st.kill(d, whole_local=not d[1])
-    P = ("v", d[0], d[1] + (("dc", "Some"), "0"))
+    P = ("v", d[0], d[1] + (("dc", "Some"), "0")) if not counter else ("v", d[0], d[1] + (("dc", "Some"), "#step"))
     pv = ("n", P, 0)
     hi_end = None if ei[1] is None else (ei[1] if incl else ei[1] - 1)
     if fwd:
@@ -1434,7 +1439,7 @@ def _range_next(c, fwd, incl):
             hi_new = si[1] + 1 if hi_new is None else min(hi_new, si[1] + 1)
         st.set_iv(S, si[0], hi_new)
         S_val = ("n", S, 0)
-        none_facts = [(e_val, S_val, 0)] if not incl else []
+        none_facts = [(e_val, S_val, 0)] if not (incl or counter) else []
         facts.append((pv, S_val, -1))
         facts.append((S_val, pv, 1))
         if old_alias is not None:
@@ -1455,7 +1460,7 @@ def _range_next(c, fwd, incl):
                 if not under(term_place(y), start_place):
                     facts.append((("n", y, 0), pv, c0))
                     st.rel[(y, S)] = c0
-        st.sym[d] = ("opt", "cond", ("conj", facts, none_facts), pv)
+        st.sym[d] = ("opt", "cond", ("conj", facts, none_facts), pv if not counter else None)
     else:
         facts = [(s_val, pv, 0), (pv, e_val, 0 if incl else -1)]
         if hi_end is not None:
@@ -1471,6 +1476,25 @@ def _range_next(c, fwd, incl):
         st.set_iv(E, si[0], ei[1])
         st.sym[d] = ("opt", "cond", ("conj", facts, []), pv)
     return "stored"
+
+
+@model(r"^std::iter::Iterator::take$")
+def m_iter_take(c):
+    """Take { iter, n }: ghost counter fields start = 0 (steps taken), end = n"""
+    d = c.dest_place()
+    if d is None or len(c.args) < 2:
+        return None
+    c.st.kill(d, whole_local=not d[1])
+    c.an.store(c.st, (d[0], d[1] + ("start",)), c.args[1][1], ("n", None, 0))
+    n = c.args[1][0]
+    if n[0] in ("n", "iv"):
+        c.an.store(c.st, (d[0], d[1] + ("end",)), c.args[1][1], n)
+    return "stored"
+
+
+@model(r"^<std::iter::Take<I> as std::iter::Iterator>::next$")
+def m_take_next(c):
+    return _range_next(c, True, False, counter=True)
 
 
 @model(r"^(std|core)::iter::range::<impl std::iter::Iterator for std::ops::Range<A>>::next$")
